@@ -29,6 +29,8 @@ type vhCrashFS struct {
 	// database consists of: the occ-th operation with label sel ("<op>:<class of path>")
 	sel      string
 	occ, cnt int
+	// after the process has died: operations of its left-over parts pass through uncounted
+	passthrough bool
 }
 
 var vhCrashOps = []string{"Stat", "MkdirAll", "Open", "Create", "Rename", "RemoveAll", "List", "Write", "Sync"}
@@ -88,6 +90,9 @@ func vhCaller() string {
 // pebble.Open starts (the point in front of Pebble's own creation and sync of
 // the database directory).
 func (c *vhCrashFS) tick(op, name string) bool {
+	if c.passthrough {
+		return true
+	}
 	if c.dead {
 		return false
 	}
@@ -204,6 +209,22 @@ func vhUntilCrash(fn func()) (crashed bool) {
 	return false
 }
 
+// vhKill: the process dies. Natively the database it had open is shut down
+// the way Pebble's own crash tests do it — with syncs ignored, so nothing the
+// shutdown writes is durable — because an abandoned open database would keep
+// writing in the background after the file system has been reset.
+func vhKill(mem *vfs.MemFS, cfs *vhCrashFS, f *FSM) {
+	cfs.passthrough = true
+	mem.SetIgnoreSyncs(true)
+	if f != nil {
+		if db := f.pebble.Load(); db != nil {
+			_ = db.Close()
+		}
+	}
+	mem.ResetToSyncedState() // the crash: everything not made durable is gone
+	mem.SetIgnoreSyncs(false)
+}
+
 func vhDurableDir(fs vfs.FS, dir string) {
 	if err := fs.MkdirAll(dir, 0o755); err != nil {
 		panic(err)
@@ -238,8 +259,9 @@ func VH_C04_open(hostDurable int) {
 	cfs := &vhCrashFS{FS: mem, k: verif.Concretize(verif.Int(), 0, 30)}
 	key, val := []byte("k"), []byte("v")
 	opened, applied, synced := false, false, false
+	var f *FSM
 	crashed := vhUntilCrash(func() {
-		f := vhFSMOn(cfs, vhNodeDir)
+		f = vhFSMOn(cfs, vhNodeDir)
 		idx, err := f.Open(nil)
 		verif.Assert(err == nil && idx == 0, "first open succeeds with index 0")
 		opened = true
@@ -256,7 +278,7 @@ func VH_C04_open(hostDurable int) {
 		verif.Cover("crash-after-sync")
 	}
 	_, _ = opened, applied
-	mem.ResetToSyncedState() // the crash: everything not made durable is gone
+	vhKill(mem, cfs, f)
 
 	f2 := vhFSMOn(&vhCrashFS{FS: mem}, vhNodeDir)
 	idx, err := f2.Open(nil)
@@ -309,8 +331,9 @@ func VH_C04_reopen() {
 	}
 	cfs := &vhCrashFS{FS: mem, k: verif.Concretize(verif.Int(), 0, 30)}
 	synced := false
+	var f *FSM
 	crashed := vhUntilCrash(func() {
-		f := vhFSMOn(cfs, vhNodeDir)
+		f = vhFSMOn(cfs, vhNodeDir)
 		idx, err := f.Open(nil)
 		verif.Assert(err == nil && idx == 3, "reopen of a cleanly closed table reports its index")
 		_, err = f.Update([]sm.Entry{vhEntry(9, &regattapb.Command{Table: []byte("t"), Type: regattapb.Command_PUT, Kv: &regattapb.KeyValue{Key: []byte("b"), Value: []byte("2")}})})
@@ -320,7 +343,7 @@ func VH_C04_reopen() {
 	if crashed {
 		verif.Cover("crash-during")
 	}
-	mem.ResetToSyncedState()
+	vhKill(mem, cfs, f)
 	f2 := vhFSMOn(&vhCrashFS{FS: mem}, vhNodeDir)
 	idx, err := f2.Open(nil)
 	verif.Assert(err == nil, "reopening a table after a crash succeeds")
